@@ -19,10 +19,11 @@ import sys
 import time
 
 os.environ["C10_PARENT_PID"] = str(os.getpid())
+os.environ["C10_SYNC_DIR"] = os.getcwd()
 sys.path.insert(0, os.path.dirname(os.path.abspath(__file__)))
 import c10_tasks as T  # noqa: E402
 from joblib import Parallel, delayed  # noqa: E402
-from joblib.externals.loky import reusable_executor  # noqa: E402
+from joblib.externals.loky import process_executor, reusable_executor  # noqa: E402
 
 sc = json.load(open(sys.argv[1]))
 out = open(sys.argv[2], "a")
@@ -30,7 +31,7 @@ dump = open(sys.argv[3], "w")
 W = sc.get("watchdog", 60)
 N, NT = sc["n_jobs"], sc["n_tasks"]
 KIND, HOW = sc["kind"], sc.get("how", "SIGKILL")
-IN_TASK = ("arg_unpickle", "task_start", "mid_task", "result_pickle", "mid_send", "after_send",
+IN_TASK = ("mgr_busy", "arg_unpickle", "task_start", "mid_task", "result_pickle", "mid_send", "after_send",
            "arg_unloadable", "result_garbage")
 
 
@@ -68,18 +69,46 @@ def kill_pids(pids):
         time.sleep(0.005)
 
 
+def n_tasks_of(call_no):
+    # the submit-window instant needs a call with a single submit
+    return 1 if (call_no == 1 and KIND == "submit_window") else NT
+
+
+HOOK = {"armed": False, "victims": [], "saw_broken_in_submit": None}
+_orig_work_item = process_executor._WorkItem
+
+
+def _hooked_work_item(*a, **k):
+    """ProcessPoolExecutor.submit builds its _WorkItem after the broken/shutdown check and before it
+    records the item (all under shutdown_lock): kill idle workers exactly there and give the manager thread
+    time to react while this submit is still in flight"""
+    if HOOK["armed"]:
+        HOOK["armed"] = False
+        e = reusable_executor._executor
+        kill_pids(HOOK["victims"])
+        t = time.time()
+        while time.time() - t < sc.get("hook_wait", 1.5) and e._flags.broken is None:
+            time.sleep(0.001)
+        HOOK["saw_broken_in_submit"] = e._flags.broken is not None
+    return _orig_work_item(*a, **k)
+
+
 def make_tasks(call_no, victim_pids):
     fault_here = call_no == 1 and KIND in IN_TASK
     items = []
-    for i in range(NT):
+    for i in range(n_tasks_of(call_no)):
         fault, arg = None, T.Bomb(None, bytes(sc["big"]) if sc.get("big") else i)
         if fault_here and i in sc["victims"]:
             if KIND == "arg_unpickle":
                 arg = T.Bomb(HOW, i)
             elif KIND == "arg_unloadable":
                 arg = T.Unloadable("worker")
+            elif KIND == "mgr_busy":
+                fault = "die_when_mgr_busy"
             else:
                 fault = KIND
+        if fault_here and KIND == "mgr_busy" and i == sc.get("slow", 0):
+            fault = "slow_result"
         if call_no == 1 and KIND == "startup_reduce" and i == 0:
             arg = T.KillOnPickle(victim_pids, HOW, i)
         items.append(delayed(T.task)(i, fault, HOW, arg, sc.get("sleep", 0.0)))
@@ -104,7 +133,7 @@ def one_call(par, call_no, victim_pids):
             r = list(r)
         r = [x.value if isinstance(x, T.ResultBomb) else x for x in r]
         vals = [x[0] if isinstance(x, tuple) else repr(x) for x in r]
-        exp = [T.expected(i) for i in range(NT)]
+        exp = [T.expected(i) for i in range(n_tasks_of(call_no))]
         rec["outcome"] = "ok" if vals == exp else "wrong"
         if vals != exp:
             rec["got"] = vals[:50]
@@ -129,7 +158,7 @@ def scenario(par):
     one_call(par, 0, [])
     st = exec_state()
     victim_pids = []
-    if KIND in ("idle_settled", "idle_unsettled", "startup_gen", "startup_reduce"):
+    if KIND in ("idle_settled", "idle_unsettled", "startup_gen", "startup_reduce", "submit_window"):
         victim_pids = [st["pids"][j % len(st["pids"])] for j in sc["victims"]] if st["pids"] else []
     emit({"victim_pids": victim_pids, "exec": st})
     if KIND in ("idle_settled", "idle_unsettled"):
@@ -144,7 +173,14 @@ def scenario(par):
                     break
                 time.sleep(0.005)
         emit({"noticed": noticed})
+    if KIND == "submit_window":
+        HOOK["victims"] = victim_pids
+        HOOK["armed"] = True
+        process_executor._WorkItem = _hooked_work_item
     one_call(par, 1, victim_pids)
+    if KIND == "submit_window":
+        process_executor._WorkItem = _orig_work_item
+        emit({"saw_broken_in_submit": HOOK["saw_broken_in_submit"], "hook_fired": not HOOK["armed"]})
     one_call(par, 2, [])
     one_call(par, 3, [])
 
